@@ -134,7 +134,7 @@ class Check:
         self.obl.setdefault(name, dict(bound=bound, text=text, queries=0, discharged=0, violated=0,
                                        hyp_sat=0, paths=0, inconclusive=0))
 
-    def require(self, ex, name, pc, hyp, concl, witness_fn=None, key_fn=None):
+    def require(self, ex, name, pc, hyp, concl, witness_fn=None, key_fn=None, prefer=None):
         """one obligation instance on one path: pc ∧ hyp ⇒ concl.  Returns True when discharged."""
         o = self.obl[name]
         o['paths'] += 1
@@ -150,6 +150,12 @@ class Check:
         o['hyp_sat'] += 1
         r, m = ex.solver.model(pc, z3.And(hyp, z3.Not(concl)))
         o['queries'] += 1
+        if r == z3.sat and prefer is not None:
+            # a counterexample exists: prefer one in the shape the native driver can set up directly
+            r2, m2 = ex.solver.model(pc, z3.And(hyp, z3.Not(concl), prefer))
+            o['queries'] += 1
+            if r2 == z3.sat:
+                m = m2
         if r == z3.unsat:
             o['discharged'] += 1
             return True
@@ -212,6 +218,8 @@ class Check:
             code = 2
         os.makedirs(os.path.join(VERIF, 'evidence'), exist_ok=True)
         os.makedirs(os.path.join(VERIF, 'evidence', 'replays'), exist_ok=True)
+        if os.environ.get('VERIF_DEBUG'):
+            json.dump(self.violations, open(os.path.join(BUILD, f'debug_{self.pid}_violations.json'), 'w'), indent=1, default=str)
         confirmed = [v for v in fresh_viol if v['replayed'] is True]
         unconfirmed = [v for v in fresh_viol if v['replayed'] is not True]
         if unconfirmed:
